@@ -79,7 +79,7 @@ def team_dir(variant):
         t = os.path.join(cars, base, "templates", "config")
         os.makedirs(os.path.join(t, "sub"))
         with open(os.path.join(cars, base, "config.ini"), "w") as f:
-            f.write("[variables]\nruntime.jdk = 17\nruntime.jdk.bundled = true\n" + "".join(f"{k} = {v}\n" for k, v in vars_.items()))
+            f.write("[variables]\nruntime.jdk = 17\nruntime.jdk.bundled = true\ndocker_image = registry/es\n" + "".join(f"{k} = {v}\n" for k, v in vars_.items()))
         with open(os.path.join(t, "elasticsearch.yml"), "w") as f:
             f.write(TEMPLATE_MAIN if base == "A" else TEMPLATE_B)
         if base == "A":
@@ -96,6 +96,9 @@ def team_dir(variant):
                 f.write("deeper b={{b|default('no-b')}}\n")
             with open(os.path.join(t, "bin.dat"), "wb") as f:
                 f.write(BINARY)
+            # a template that renders to nothing still has to be mirrored into the installation
+            with open(os.path.join(t, "unicast_hosts.txt"), "w") as f:
+                f.write("")
         else:
             with open(os.path.join(t, "only-b.properties"), "w") as f:
                 f.write("only.b={{c|default('x')}}\n")
@@ -136,7 +139,7 @@ def ref_compose(variant, names, params):
         for b in bs:
             if b not in bases:
                 bases.append(b)
-            bv = {"runtime.jdk": "17", "runtime.jdk.bundled": "true"}
+            bv = {"runtime.jdk": "17", "runtime.jdk.bundled": "true", "docker_image": "registry/es"}
             bv.update(BASE_VARIANTS[variant][b])
             base_vars.update(bv)
         car_vars.update(vs)
@@ -245,6 +248,39 @@ def check_case(variant, names, pkeys, data_mode, preserve, res):
                                     clause = "node-variable-overridden"
                         v = (clause, f"{rel}: provisioned {got[rel][:300]!r}, expected {exp[rel][:300]!r}")
                         break
+            if v is None and data_mode == "default" and not preserve:
+                # the same car through the Docker provisioner: same templates, same precedence, Rally's container-side variables win
+                droot = os.path.join(work, "dnode0")
+                dprov = provisioner.DockerProvisioner(car, "rally-node-0", "rally-benchmark", "10.0.0.7", 39200, droot, "8.0.0",
+                                                      os.path.join(os.environ.get("VERIF_REPO", "/repo"), "esrally"))
+                dprov.prepare(None)
+                deff = dict(merged)
+                deff.update({"cluster_name": "rally-benchmark", "node_name": "rally-node-0", "network_host": "0.0.0.0", "http_port": "39200",
+                             "transport_port": "39300", "install_root_path": "/usr/share/elasticsearch", "log_path": "/var/log/elasticsearch",
+                             "heap_dump_path": "/usr/share/elasticsearch/heapdump", "discovery_type": "single-node"})
+                dexp = {}
+                for b in bases:
+                    tdir = os.path.join(troot, "cars", "v1", b, "templates")
+                    for dp, _dn, fn in os.walk(tdir):
+                        for f in sorted(fn):
+                            rel = os.path.relpath(os.path.join(dp, f), tdir)
+                            raw = open(os.path.join(dp, f), "rb").read()
+                            if os.path.splitext(f)[1] in (".ini", ".txt", ".json", ".yml", ".yaml", ".options", ".properties"):
+                                dexp[rel] = dexp.get(rel, b"") + render(raw.decode("utf-8"), deff).encode("utf-8")
+                            else:
+                                dexp[rel] = raw
+                dgot = {k: val for k, val in snapshot(os.path.join(droot, "install")).items() if k.startswith("config/") and val is not None}
+                if set(dgot) != set(dexp):
+                    v = ("docker-template-files", f"files under config: {sorted(dgot)}, templates provide {sorted(dexp)}")
+                else:
+                    for rel in sorted(dexp):
+                        if dgot[rel] != dexp[rel]:
+                            clause = "docker-rendered-file"
+                            for line_g, line_e in zip(dgot[rel].decode("utf-8", "replace").splitlines(), dexp[rel].decode("utf-8", "replace").splitlines()):
+                                if line_g != line_e and line_e.split("=")[0] in ("node", "host", "port", "cluster"):
+                                    clause = "docker-node-variable-overridden"
+                            v = (clause, f"{rel}: provisioned {dgot[rel][:300]!r}, expected {dexp[rel][:300]!r}")
+                            break
             if v is None:
                 # cleanup
                 for p in want_data + [ext_data, sibling]:
